@@ -20,7 +20,7 @@ props.prop(
                 'by other objects',
     assumptions=['links are only added through DataCollection / LinkManager methods'])
 props.also('C03',
-           'that every attribute of a removed dataset is covered by the dataset-removed handler')
+           'that every attribute of a removed dataset is covered by the dataset-removed handler; that membership of an identifier in a link (collection) is decided from what the link computes with (a collection: from its links)')
 
 LM = 'glue.core.link_manager.LinkManager'
 DC = 'glue.core.data_collection.DataCollection'
